@@ -36,6 +36,9 @@ CLAIMED['C14'] = ('irsym', 'bounded symbolic execution of the clang IR over the 
 CLAIMED['C15'] = ('irsym', 'bounded symbolic execution of the clang IR over the exact reals (Vec::length() replaced by its separately proved contract); z3 SMT-core nonlinear arithmetic + nlsat portfolio',
     'Line3 (set, closestPointTo/distanceTo point and line, closestPoints), Plane3 (three constructors, distanceTo, reflectPoint/Vector incl. involution, intersect/intersectT, negation), Sphere3::circumscribe, project/orthogonal/reflect/closestVertex are proved to satisfy their defining geometric equations for all real inputs in a 2^20 box on every path, including the guarded nearly-parallel branches. Sphere3::intersectT, closestVertex(line), rotatePoint and the triangle test are attempted but budgeted (reported undecided when nlsat does not finish).',
     ENGC_NOTE + ' Compositional: callers of Vec3::length() are verified against its contract (l >= 0, l*l == sum of squares), which C08 decides for the real body.', '3/C15')
+CLAIMED['C16'] = ('irsym', 'bounded symbolic execution of the clang IR over the exact reals; Frustum objects built as symbolic memory state; z3 SMT-core/nlsat portfolio',
+    'For every non-degenerate perspective and orthographic frustum in the stated range: projectionMatrix maps the eight corners to the cube corners; projectPointToScreen equals the x,y of point*projectionMatrix; every point of projectScreenToRay(s) projects back to s; normalizedZToDepth agrees with the matrix depth; worldRadius inverts screenRadius; aspect; planes() returns six unit outward normals in the documented order, each through its own four corners with all corners on the non-positive side. FrustumTest::isVisible(point) is thorough-tier and budgeted.',
+    ENGC_NOTE + ' ZToDepth/DepthToZ (integer casts), fov functions, planes(M) and box/sphere culling are not decided.', '3/C16')
 NOT_YET = 'check not built yet in this working session (planned in DESIGN.md section 3); no claim is made'
 NA = {}
 
@@ -66,7 +69,7 @@ def main():
         'engines': [
             {'name': 'cbmc-c', 'path': 'harness/c01/half_c.c + vf/cbmc.py', 'serves_properties': ['C01', 'C02'], 'kind_free_text': 'CBMC on half.h compiled as C'},
             {'name': 'ir2c', 'path': 'vf/ll2c.py + vf/build.py + vf/cbmc.py', 'serves_properties': sorted(CLAIMED), 'kind_free_text': 'clang++-14 -O1 LLVM IR of wrapper TUs (real headers / real .cpp) -> own IR->C translator -> CBMC (minisat/cadical/kissat/z3/cvc5)'},
-            {'name': 'irsym', 'path': 'vf/irsym.py + vf/symcase.py', 'serves_properties': ['C05', 'C06', 'C09', 'C14', 'C15'], 'kind_free_text': 'own symbolic executor over the same LLVM IR, floats as exact reals, z3 nlsat'},
+            {'name': 'irsym', 'path': 'vf/irsym.py + vf/symcase.py', 'serves_properties': ['C05', 'C06', 'C09', 'C14', 'C15', 'C16'], 'kind_free_text': 'own symbolic executor over the same LLVM IR, floats as exact reals, z3 nlsat'},
         ],
         'checks': checks,
         'not_applicable': na,
